@@ -284,7 +284,8 @@ class ExprWorld:
     # -- values ------------------------------------------------------------------------------
     def leaf(self, kind: str, name: str) -> Obj:
         classes = ["BoolExpr", "Expr"] if kind == "b" else ["IntExpr", "Expr"]
-        o = Obj(classes, leaf=name, kind=kind, name=name)
+        # a variable is an expression too: op VAR, no operands (code that looks at `x.op` of an operand must find one)
+        o = Obj(classes, leaf=name, kind=kind, name=name, op=Tag("Op.VAR"), operands=[])
         o.resolver = self._resolve_method
         return o
 
